@@ -8,6 +8,8 @@ import (
 	"context"
 	"fmt"
 	"io"
+	"os"
+	"os/exec"
 	"sort"
 	"strings"
 	"time"
@@ -32,7 +34,10 @@ type Expr struct {
 }
 
 type Stmt struct {
-	K     string  `json:"k"` // seq declare set setuser block if while repeat loop leave iterate
+	K     string  `json:"k"` // declare set setuser block if while repeat loop leave iterate handler raise
+	Exit  bool    `json:"exit,omitempty"` // handler: EXIT (else CONTINUE)
+	User  bool    `json:"user,omitempty"` // handler statement assigns @u<ID> instead of v<ID>
+	Dup   bool    `json:"dup,omitempty"`  // raise: duplicate-key INSERT (else SIGNAL)
 	ID    int     `json:"id,omitempty"`
 	Z     *int64  `json:"z,omitempty"` // declare default (nil = NULL default)
 	L     int     `json:"l,omitempty"` // label number, 0 = none
@@ -139,6 +144,20 @@ func (s *Stmt) sql() string {
 		return lbl(s.L) + "loop " + seqSQL(s.Body) + "end loop" + endlbl(s.L)
 	case "leave":
 		return fmt.Sprintf("leave l%d", s.L)
+	case "handler":
+		act, tgt := "continue", fmt.Sprintf("v%d", s.ID)
+		if s.Exit {
+			act = "exit"
+		}
+		if s.User {
+			tgt = fmt.Sprintf("@u%d", s.ID)
+		}
+		return fmt.Sprintf("declare %s handler for sqlexception set %s = %s", act, tgt, s.E.sql())
+	case "raise":
+		if s.Dup {
+			return "insert into dup values (1)"
+		}
+		return "signal sqlstate '45000'"
 	default:
 		return fmt.Sprintf("iterate l%d", s.L)
 	}
@@ -177,6 +196,17 @@ func (s *Stmt) coq() string {
 		return fmt.Sprintf("(SLoop %d%%N %s)", s.L, seqCoq(s.Body))
 	case "leave":
 		return fmt.Sprintf("(SLeave %d%%N)", s.L)
+	case "handler":
+		k, h := "HContinue", "HSet"
+		if s.Exit {
+			k = "HExit"
+		}
+		if s.User {
+			h = "HSetUser"
+		}
+		return fmt.Sprintf("(SHandler %s (%s %d%%N %s))", k, h, s.ID, s.E.coq())
+	case "raise":
+		return fmt.Sprintf("(SRaise %s)", lib.CoqBool(s.Dup))
 	default:
 		return fmt.Sprintf("(SIterate %d%%N)", s.L)
 	}
@@ -189,16 +219,26 @@ type value struct {
 	z    int64
 }
 
-type frame map[int]*value
+type frame struct {
+	vars     map[int]*value
+	handlers []*Stmt
+}
+
+func newFrame() *frame { return &frame{vars: map[int]*value{}} }
 
 type interp struct {
-	frames []frame // innermost last
+	frames []*frame // innermost last
 	users  map[int]value
 	steps  int
+	// shape of the run, used to classify a disagreement
+	exitFired      bool
+	leakVisible    bool // an EXIT handler fired and the frames it left shadow outer variables, or a raise followed
+	nestedHandlers bool // a raise found handlers in two or more frames
+	handlerRows    bool // a handler whose statement assigns a user variable fired
 }
 
 type ctl struct {
-	kind  int // 0 normal, 1 leave, 2 iterate
+	kind  int // 0 normal, 1 leave, 2 iterate, 3 exit the block at depth label
 	label int
 }
 
@@ -213,7 +253,7 @@ func (in *interp) tick() {
 
 func (in *interp) find(id int) *value {
 	for i := len(in.frames) - 1; i >= 0; i-- {
-		if v, ok := in.frames[i][id]; ok {
+		if v, ok := in.frames[i].vars[id]; ok {
 			return v
 		}
 	}
@@ -295,6 +335,9 @@ func loopCtl(c ctl, l int) (leave bool, prop bool) {
 	if c.kind == 0 {
 		return false, false
 	}
+	if c.kind == 3 {
+		return false, true
+	}
 	if l != 0 && c.label == l {
 		return c.kind == 1, false
 	}
@@ -309,17 +352,66 @@ func (in *interp) stmt(s *Stmt) ctl {
 		if s.Z != nil {
 			v = &value{z: *s.Z}
 		}
-		in.frames[len(in.frames)-1][s.ID] = v
+		in.frames[len(in.frames)-1].vars[s.ID] = v
+	case "handler":
+		f := in.frames[len(in.frames)-1]
+		f.handlers = append(f.handlers, s)
+	case "raise":
+		if in.exitFired {
+			in.leakVisible = true
+		}
+		withHandlers := 0
+		for _, f := range in.frames {
+			if len(f.handlers) > 0 {
+				withHandlers++
+			}
+		}
+		if withHandlers > 1 {
+			in.nestedHandlers = true
+		}
+		for d := len(in.frames) - 1; d >= 0; d-- {
+			hs := in.frames[d].handlers
+			if len(hs) == 0 {
+				continue
+			}
+			h := hs[len(hs)-1]
+			v := in.eval(h.E)
+			if h.User {
+				in.users[h.ID] = v
+				in.handlerRows = true
+			} else {
+				*in.find(h.ID) = v
+			}
+			if !h.Exit {
+				return ctl{}
+			}
+			in.exitFired = true
+			for _, f := range in.frames[d:] {
+				for id := range f.vars {
+					for _, o := range in.frames[:d] {
+						if _, ok := o.vars[id]; ok {
+							in.leakVisible = true
+						}
+					}
+				}
+			}
+			return ctl{3, d}
+		}
+		panic(abort{"unhandled"})
 	case "set":
 		v := in.eval(s.E)
 		*in.find(s.ID) = v
 	case "setuser":
 		in.users[s.ID] = in.eval(s.E)
 	case "block":
-		in.frames = append(in.frames, frame{})
+		in.frames = append(in.frames, newFrame())
+		depth := len(in.frames) - 1
 		c := in.seq(s.Body)
 		in.frames = in.frames[:len(in.frames)-1]
 		if c.kind == 1 && s.L != 0 && c.label == s.L {
+			return ctl{}
+		}
+		if c.kind == 3 && c.label == depth {
 			return ctl{}
 		}
 		return c
@@ -372,18 +464,21 @@ func (in *interp) stmt(s *Stmt) ctl {
 	return ctl{}
 }
 
-// reference runs the body directly; ok=false when it does not finish or fails
-func reference(cs *caseT) (map[int]value, bool) {
-	in := &interp{frames: []frame{{}}, users: map[int]value{}}
+// reference runs the body directly; status "ok", "error" (unhandled condition) or "unfinished"
+func reference(cs *caseT) (map[int]value, string, *interp) {
+	in := &interp{frames: []*frame{newFrame()}, users: map[int]value{}}
 	for i, p := range cs.Params {
-		in.frames[0][100+i] = &value{z: p}
+		in.frames[0].vars[100+i] = &value{z: p}
 	}
-	ok := true
+	status := "ok"
 	func() {
 		defer func() {
 			if r := recover(); r != nil {
-				if _, is := r.(abort); is {
-					ok = false
+				if a, is := r.(abort); is {
+					status = "unfinished"
+					if a.why == "unhandled" {
+						status = "error"
+					}
 					return
 				}
 				panic(r)
@@ -391,12 +486,13 @@ func reference(cs *caseT) (map[int]value, bool) {
 		}()
 		in.seq(cs.Body)
 	}()
-	return in.users, ok
+	return in.users, status, in
 }
 
 // ---------- generator ----------
 
 type genT struct {
+	raises   int
 	r        *lib.RNG
 	nextVar  int
 	nextLbl  int
@@ -409,6 +505,8 @@ type scopeInfo struct {
 	vars      []int // visible non-counter variables
 	loopLbls  []int // enclosing loop labels (ITERATE/LEAVE targets)
 	blockLbls []int // enclosing block labels (LEAVE targets)
+	handler   bool  // a handler is active here
+	noShadow  bool  // inside the block of an EXIT handler: declare only fresh variables (else the known scope leak shows)
 }
 
 func (g *genT) expr(sc *scopeInfo, depth int) *Expr {
@@ -496,6 +594,12 @@ func (g *genT) stmts(sc *scopeInfo, depth, n int) []*Stmt {
 		if depth <= 0 && choice >= 4 {
 			choice = g.r.Intn(4)
 		}
+		if g.raises < 2 && ((sc.handler && g.r.Chance(1, 5)) || g.r.Chance(1, 150)) {
+			// raise a condition (unhandled ones are rare: the whole CALL must fail then)
+			g.raises++
+			out = append(out, &Stmt{K: "raise", Dup: g.r.Bool()})
+			continue
+		}
 		switch choice {
 		case 0, 1, 2:
 			out = append(out, g.assign(sc))
@@ -514,15 +618,23 @@ func (g *genT) stmts(sc *scopeInfo, depth, n int) []*Stmt {
 		case 6:
 			// nested block with declarations (possibly shadowing)
 			l := g.label(false)
-			inner := &scopeInfo{vars: append([]int{}, sc.vars...), loopLbls: sc.loopLbls, blockLbls: sc.blockLbls}
+			inner := &scopeInfo{vars: append([]int{}, sc.vars...), loopLbls: sc.loopLbls, blockLbls: sc.blockLbls, handler: sc.handler, noShadow: sc.noShadow}
 			if l != 0 {
 				inner.blockLbls = append(append([]int{}, sc.blockLbls...), l)
+			}
+			var hdl *Stmt
+			if g.r.Chance(1, 3) && (!sc.handler || g.r.Chance(1, 8)) {
+				hdl = &Stmt{K: "handler", Exit: g.r.Bool(), ID: lib.Pick(g.r, sc.vars), E: &Expr{K: "const", Z: int64(g.r.Range(10, 19))}}
+				inner.handler = true
+				if hdl.Exit && !g.r.Chance(1, 8) {
+					inner.noShadow = true
+				}
 			}
 			var body []*Stmt
 			declared := map[int]bool{}
 			for k := g.r.Range(1, 2); k > 0; k-- {
 				id := 0
-				if g.r.Bool() {
+				if g.r.Bool() && !inner.noShadow {
 					id = lib.Pick(g.r, sc.vars) // shadow
 					if id >= 100 || declared[id] {
 						id = 0
@@ -537,6 +649,9 @@ func (g *genT) stmts(sc *scopeInfo, depth, n int) []*Stmt {
 				z := int64(g.r.Range(-2, 5))
 				body = append(body, &Stmt{K: "declare", ID: id, Z: &z})
 			}
+			if hdl != nil {
+				body = append(body, hdl)
+			}
 			body = append(body, g.stmts(inner, depth-1, g.r.Range(1, 3))...)
 			out = append(out, &Stmt{K: "block", L: l, Body: body})
 		default:
@@ -546,7 +661,7 @@ func (g *genT) stmts(sc *scopeInfo, depth, n int) []*Stmt {
 			l := g.label(true)
 			bound := int64(g.r.Range(1, 4))
 			zero := int64(0)
-			inner := &scopeInfo{vars: sc.vars, loopLbls: sc.loopLbls, blockLbls: sc.blockLbls}
+			inner := &scopeInfo{vars: sc.vars, loopLbls: sc.loopLbls, blockLbls: sc.blockLbls, handler: sc.handler, noShadow: sc.noShadow}
 			if l != 0 {
 				inner.loopLbls = append(append([]int{}, sc.loopLbls...), l)
 			}
@@ -566,6 +681,22 @@ func (g *genT) stmts(sc *scopeInfo, depth, n int) []*Stmt {
 				loop = &Stmt{K: "repeat", L: l, E: ge, Body: body}
 			default:
 				body = append([]*Stmt{inc, {K: "if", E: ge, Body: []*Stmt{{K: "leave", L: l}}}}, body[1:]...)
+				if g.r.Bool() {
+					// the LOOP body is one BEGIN..END block that declares a (shadowing) variable; ITERATE from inside it
+					// jumps backwards onto the block's ScopeBegin
+					id := lib.Pick(g.r, sc.vars)
+					if id >= 100 || sc.noShadow {
+						g.nextVar++
+						id = g.nextVar
+					}
+					z := int64(g.r.Range(20, 29))
+					one := &Expr{K: "bin", Op: "Eq", A: &Expr{K: "var", ID: ctr}, B: &Expr{K: "const", Z: 1}}
+					blk := []*Stmt{{K: "declare", ID: id, Z: &z}, body[0], body[1], {K: "if", E: one, Body: []*Stmt{{K: "iterate", L: l}}}}
+					blk = append(blk, body[2:]...)
+					blk = append(blk, &Stmt{K: "set", ID: id, E: &Expr{K: "bin", Op: "Add", A: &Expr{K: "var", ID: id}, B: &Expr{K: "const", Z: 1}}})
+					body = []*Stmt{{K: "block", Body: blk}}
+					g.features["loop-block-first"] = true
+				}
 				loop = &Stmt{K: "loop", L: l, Body: body}
 			}
 			// the counter is declared in a block of its own around the loop
@@ -666,7 +797,6 @@ func run(c *lib.Ctx, cs *caseT) {
 	if fsig == "" {
 		fsig = "plain"
 	}
-	c.Count("features:" + fsig)
 
 	// the operation list the engine compiles the body to
 	var opsTerm []string
@@ -699,6 +829,24 @@ func run(c *lib.Ctx, cs *caseT) {
 	}
 	c.Count(fmt.Sprintf("ops_%02d0s", len(ops)/10))
 
+	// a handler whose statement assigns a user variable makes the interpreter restart the procedure in a loop that
+	// ignores context cancellation: try such bodies in a child process first and only run them here if they return
+	childHung := false
+	if hasUserHandler(cs.Body) {
+		cmd := exec.Command(os.Args[0])
+		cmd.Env = append(os.Environ(), "C24_CHILD_CREATE="+create, fmt.Sprintf("C24_CHILD_CALL=call p(%d, %d)", cs.Params[0], cs.Params[1]))
+		if err := cmd.Start(); err == nil {
+			ch := make(chan error, 1)
+			go func() { ch <- cmd.Wait() }()
+			select {
+			case <-ch:
+			case <-time.After(4 * time.Second):
+				cmd.Process.Kill()
+				<-ch
+				childHung = true
+			}
+		}
+	}
 	// the engine
 	e := eng.New("db")
 	s := e.Session()
@@ -707,6 +855,7 @@ func run(c *lib.Ctx, cs *caseT) {
 		c.PredFail(id, "create-error/"+fsig, "CREATE PROCEDURE failed: "+r.Err.Error(), cs)
 		return
 	}
+	s.MustExec("create table dup (i int primary key)", "insert into dup values (1)")
 	for i := 0; i < cs.NUsers; i++ {
 		s.MustExec(fmt.Sprintf("set @u%d = null", i))
 	}
@@ -714,9 +863,12 @@ func run(c *lib.Ctx, cs *caseT) {
 		err   error
 		panic string
 	}
-	done := make(chan callRes, 1)
+	done := make(chan callRes, 2)
 	cctx, cancel := context.WithCancel(context.Background())
 	go func() {
+		if childHung {
+			return
+		}
 		var res callRes
 		defer func() {
 			if r := recover(); r != nil {
@@ -745,6 +897,11 @@ func run(c *lib.Ctx, cs *caseT) {
 	}()
 	var res callRes
 	timedOut := false
+	if childHung {
+		timedOut = true
+		cancel()
+		done <- callRes{}
+	}
 	select {
 	case res = <-done:
 	case <-time.After(3 * time.Second):
@@ -798,9 +955,9 @@ func run(c *lib.Ctx, cs *caseT) {
 	}
 
 	// predicate: CALL == direct structured interpretation
-	want, refOK := reference(cs)
-	cs.Ref = "?"
-	if refOK {
+	want, status, in := reference(cs)
+	cs.Ref = status
+	if status == "ok" {
 		ws := map[int]string{}
 		for i := 0; i < cs.NUsers; i++ {
 			if v, ok := want[i]; ok {
@@ -811,20 +968,50 @@ func run(c *lib.Ctx, cs *caseT) {
 		}
 		cs.Ref = fmt.Sprint(ws)
 	}
+	// shape of the reference run (decides the signature of a disagreement)
+	if in.leakVisible {
+		fs = append(fs, "exit-handler-leak")
+	}
+	if in.nestedHandlers {
+		fs = append(fs, "nested-handlers")
+	}
+	if in.handlerRows {
+		fs = append(fs, "handler-assigns-user-variable")
+	}
+	// one root cause per signature: the first applicable shape in this order names the disagreement
+	fsig = "plain"
+	for _, f := range []string{"handler-assigns-user-variable", "reused-label", "nested-handlers", "exit-handler-leak", "leave-block", "declare-null"} {
+		for _, g := range fs {
+			if g == f {
+				fsig = f
+			}
+		}
+		if fsig != "plain" {
+			break
+		}
+	}
+	if in.exitFired {
+		c.Count("run:exit-handler-fired")
+	}
+	c.Count("run-shape:" + fsig)
 	var id int
 	if feat["declare-null"] {
 		id = c.CaseNoModel(cs, key) // DEFAULT NULL is kept as an unevaluated AST node by the engine: not modelled
 	} else {
 		id = c.Case(term, cs, key)
 	}
-	if !refOK {
+	if status == "unfinished" {
 		c.Count("reference-did-not-finish")
 		return
 	}
 	c.PredChecked()
 	switch {
 	case timedOut:
-		c.PredFail(id, "call-does-not-return/"+fsig, fmt.Sprintf("CALL does not return within 3 s; direct interpretation finishes with %s; %s", cs.Ref, create), cs)
+		c.PredFail(id, "call-does-not-return/"+fsig, fmt.Sprintf("CALL does not return within 3 s; direct interpretation: %s; %s", cs.Ref, create), cs)
+	case status == "error" && obs == "RErr":
+		c.Count("agree-error")
+	case status == "error":
+		c.PredFail(id, "call-succeeds-on-unhandled-condition/"+fsig, fmt.Sprintf("CALL gives %s although the body raises a condition no handler covers; %s", cs.Engine, create), cs)
 	case obs == "RErr":
 		c.PredFail(id, "call-fails/"+fsig, fmt.Sprintf("CALL fails (%s); direct interpretation gives %s; %s", cs.Engine, cs.Ref, create), cs)
 	case cs.Engine != cs.Ref:
@@ -834,9 +1021,33 @@ func run(c *lib.Ctx, cs *caseT) {
 	}
 }
 
+func hasUserHandler(ss []*Stmt) bool {
+	for _, s := range ss {
+		if (s.K == "handler" && s.User) || hasUserHandler(s.Body) || hasUserHandler(s.Else) {
+			return true
+		}
+	}
+	return false
+}
+
+// childMain runs one CREATE PROCEDURE + CALL and exits; the parent kills it when it does not return
+func childMain() {
+	logrus.SetOutput(io.Discard)
+	e := eng.New("db")
+	s := e.Session()
+	s.Query("create table dup (i int primary key)")
+	s.Query("insert into dup values (1)")
+	s.Query(os.Getenv("C24_CHILD_CREATE"))
+	s.Query(os.Getenv("C24_CHILD_CALL"))
+	os.Exit(0)
+}
+
 func i64(z int64) *int64 { return &z }
 
 func main() {
+	if os.Getenv("C24_CHILD_CREATE") != "" {
+		childMain()
+	}
 	lib.Main("C24", func(c *lib.Ctx) {
 		logrus.SetOutput(io.Discard)
 		c.Header = "From Coq Require Import List ZArith NArith.\nImport ListNotations.\nFrom GMS Require Import Lang.C24Proc Corr.C24.\nOpen Scope N_scope."
@@ -882,6 +1093,42 @@ func main() {
 					{K: "set", ID: 2, E: bin("Add", v(2), v(1))}}},
 				{K: "setuser", ID: 0, E: v(1)}, {K: "setuser", ID: 1, E: v(2)}, {K: "setuser", ID: 2, E: bin("Add", v(100), v(101))}}}}},
 		}
+		hd := func(exit bool, id int, z int64) *Stmt { return &Stmt{K: "handler", Exit: exit, ID: id, E: k(z)} }
+		corpus = append(corpus,
+			// EXIT handler leaves its block without popping it (Coq: exit_leak_prog)
+			&caseT{NUsers: 3, Params: []int64{0, 0}, Body: []*Stmt{{K: "block", Body: []*Stmt{
+				{K: "declare", ID: 1, Z: i64(0)}, {K: "declare", ID: 2, Z: i64(1)},
+				{K: "block", Body: []*Stmt{{K: "declare", ID: 2, Z: i64(2)}, hd(true, 1, 1), {K: "raise"}, {K: "setuser", ID: 1, E: k(1)}}},
+				{K: "setuser", ID: 0, E: v(2)}}}}},
+			// nested handlers: the outermost runs (Coq: nested_handler_prog)
+			&caseT{NUsers: 3, Params: []int64{0, 0}, Body: []*Stmt{{K: "block", Body: []*Stmt{
+				{K: "declare", ID: 1, Z: i64(0)}, hd(false, 1, 10),
+				{K: "block", Body: []*Stmt{hd(false, 1, 20), {K: "raise"}}},
+				{K: "setuser", ID: 0, E: v(1)}}}}},
+			// a handler assigning a user variable restarts the procedure (Coq: restart_prog)
+			&caseT{NUsers: 3, Params: []int64{0, 0}, Body: []*Stmt{{K: "block", Body: []*Stmt{
+				{K: "handler", User: true, ID: 0, E: k(1)}, {K: "raise"}, {K: "setuser", ID: 1, E: k(2)}}}}},
+			// EXIT handler in an outer block, error in a nested block, no shadowing (Coq: handler_good_prog)
+			&caseT{NUsers: 3, Params: []int64{0, 0}, Body: []*Stmt{{K: "block", Body: []*Stmt{
+				{K: "declare", ID: 1, Z: i64(0)},
+				{K: "block", Body: []*Stmt{hd(true, 1, 1),
+					{K: "block", Body: []*Stmt{{K: "raise", Dup: true}, {K: "setuser", ID: 1, E: k(1)}}},
+					{K: "setuser", ID: 2, E: k(1)}}},
+				{K: "setuser", ID: 0, E: v(1)}}}}},
+			// LOOP whose body is a shadowing block, ITERATE from inside it (Coq: loop_block_prog)
+			&caseT{NUsers: 3, Params: []int64{0, 0}, Body: []*Stmt{{K: "block", Body: []*Stmt{
+				{K: "declare", ID: 1, Z: i64(1)}, {K: "declare", ID: 2, Z: i64(0)},
+				{K: "loop", L: 1, Body: []*Stmt{{K: "block", Body: []*Stmt{
+					{K: "declare", ID: 1, Z: i64(50)},
+					{K: "set", ID: 2, E: bin("Add", v(2), k(1))},
+					{K: "if", E: bin("Le", k(3), v(2)), Body: []*Stmt{{K: "leave", L: 1}}},
+					{K: "if", E: bin("Eq", v(2), k(1)), Body: []*Stmt{{K: "iterate", L: 1}}},
+					{K: "set", ID: 1, E: bin("Add", v(1), k(1))}}}}},
+				{K: "setuser", ID: 0, E: v(1)}}}}},
+			// unhandled condition: CALL must fail
+			&caseT{NUsers: 3, Params: []int64{0, 0}, Body: []*Stmt{{K: "block", Body: []*Stmt{
+				{K: "setuser", ID: 0, E: k(1)}, {K: "raise"}, {K: "setuser", ID: 1, E: k(2)}}}}},
+		)
 		// DECLARE ... DEFAULT NULL: the default is kept as an unevaluated AST node
 		corpus = append(corpus, &caseT{NUsers: 3, Params: []int64{1, 1}, Body: []*Stmt{{K: "block", Body: []*Stmt{
 			{K: "declare", ID: 1},
